@@ -195,6 +195,13 @@ func parserCorpus(tier string, seed uint64, f func(stream, s string)) {
 		rng = NewRng(mix(seed, strHash("malformed"), uint64(i)))
 		f("malformed", malformed())
 	}
+	// values written as selectors (the literal text of such a value is the selector's dotted rendering), selectors that begin like a keyword
+	for _, sel := range []string{`bar["a.b"]`, `tags["x-y"]`, `a["b c"].d`, `a[""]`, "a[`r.s`]", `a.b["c"]`, `a["é"]`, `a["b"]["c.d"].e`, `a.0["x.y"]`, `a["b/c"]`, `a["~"]`, `a["0"]`, `a.b.c`, `a["b"]`, `x["\""]`, `x["\\"]`, `x["\n"]`,
+		"notes", "note.x", "notBefore", "nothing", "android.os", "order", "orbit", "anyone", "allow", "inner", "island", "asx", "emptyx", "matchesx", "containsx", "nota", "inn", "iss", "andy", "ore"} {
+		for _, form := range []string{"foo == %s", "%s in foo.list", "foo != %s", "foo contains %s", "foo matches %s", "%s == 1", "%s is empty", "x in %s", "not %s == 1", "a == 1 and %s != 2", "any %s as v { v == 1 }", "all xs as v { %s == v }"} {
+			f("selector-values", fmt.Sprintf(form, sel))
+		}
+	}
 	// texts the grammar accepts with something put before or after them that a lenient reader might strip
 	for i := 0; i < sz.derive/4; i++ {
 		rng = NewRng(mix(seed, strHash("decorated"), uint64(i)))
